@@ -232,6 +232,8 @@ def run(tier, seed, replay=None):
     for i in range(nprog):
         if i % 4 == 1:
             prog, f = G.callshape_program(C.Rng(r.next()))       # calling-convention boundary stream (small frames)
+        elif i % 8 == 3:
+            prog, f = G.flow_program(C.Rng(r.next()))            # stop / return / skip on the last statement of procedures
         else:
             prog, f = G.generate(C.Rng(r.next()), [0.5, 1.0, 1.0, 1.6][i % 4])
         feats.update(f)
